@@ -237,3 +237,78 @@ Proof.
   rewrite child_snapshot_nil in H. rewrite H. reflexivity.
 Qed.
 End Latest.
+
+(* ---- fork_join: the tuple of LAST elements, once, when every source has completed -- *)
+Section ForkJoin.
+Context {A : Type}.
+
+(* deliveries: (source, Some x) = element, (source, None) = completion *)
+Fixpoint fj_spec (n : nat) (seen : list (nat * A)) (done : list bool) (ins : list (nat * option A))
+  : list (list A) * bool :=
+  match ins with
+  | [] => ([], false)
+  | (k, Some x) :: t => fj_spec n (seen ++ [(k, x)]) done t
+  | (k, None) :: t =>
+      let done1 := nth_set k true done in
+      match latest k seen with
+      | None => ([], true)                       (* a source completing empty completes the output at once *)
+      | Some _ => if forallb (fun d => d) done1
+                  then ([strip (snapshot n seen)], true)
+                  else fj_spec n seen done1 t
+      end
+  end.
+
+Fixpoint fj_feed (n : nat) (st : list (option A) * list bool) (ins : list (nat * option A))
+  (outs : list (list A)) : list (list A) * bool :=
+  match ins with
+  | [] => (outs, false)
+  | (k, o) :: t =>
+      let '(st', cs, f) := x_step (x_fork_join n) st 0
+                             (ISrc k (match o with Some x => Next x | None => Done end)) in
+      match f with
+      | Cont => fj_feed n st' t (outs ++ cemits cs)
+      | _ => (outs ++ cemits cs, true)
+      end
+  end.
+
+Lemma fj_feed_from n (ins : list (nat * option A)) : forall seen done outs,
+  Forall (fun p => (fst p < n)%nat) ins ->
+  fj_feed n (snapshot n seen, done) ins outs
+  = (outs ++ fst (fj_spec n seen done ins), snd (fj_spec n seen done ins)).
+Proof.
+  induction ins as [|[k [x|]] t IH]; intros seen done outs Hf.
+  - cbn. now rewrite app_nil_r.
+  - inversion Hf as [|? ? Hk Ht]; subst. cbn [fst] in Hk.
+    cbn [fj_feed fj_spec x_fork_join x_step]. rewrite (snapshot_snoc n seen k x Hk).
+    cbn [cemits flat_map app]. rewrite app_nil_r. apply IH. exact Ht.
+  - inversion Hf as [|? ? Hk Ht]; subst. cbn [fst] in Hk.
+    cbn [fj_feed fj_spec x_fork_join x_step]. rewrite (snapshot_nth n seen k Hk).
+    destruct (latest k seen) as [y|].
+    + change (flat_map (fun v : option A => match v with Some y => [y] | None => [] end)) with (@strip A).
+      destruct (forallb (fun d : bool => d) (nth_set k true done)).
+      * cbn [cemits flat_map app fst snd]. reflexivity.
+      * cbn [cemits flat_map app]. rewrite app_nil_r. apply IH. exact Ht.
+    + cbn [cemits flat_map app fst snd]. now rewrite app_nil_r.
+Qed.
+
+(* n sources, ANY sequence of deliveries and completions: the machine's output up to its
+   termination is [fj_spec]: nothing until every source has completed, then ONE tuple made of
+   the last element of every source -- or an immediate, empty completion as soon as a source
+   completes without having delivered anything *)
+Theorem fork_join_closed_form n (ins : list (nat * option A)) :
+  Forall (fun p => (fst p < n)%nat) ins ->
+  fj_feed n (repeat None n, repeat false n) ins [] = fj_spec n [] (repeat false n) ins.
+Proof.
+  intros Hf. rewrite <- snapshot_nil. rewrite (fj_feed_from n ins [] (repeat false n) [] Hf).
+  cbn [app]. destruct (fj_spec n [] (repeat false n) ins). reflexivity.
+Qed.
+
+(* at most one tuple is ever emitted *)
+Lemma fj_spec_at_most_one n (ins : list (nat * option A)) : forall seen done,
+  (length (fst (fj_spec n seen done ins)) <= 1)%nat.
+Proof.
+  induction ins as [|[k [x|]] t IH]; intros seen done; cbn [fj_spec]; [cbn; lia|apply IH|].
+  destruct (latest k seen); [|cbn; lia].
+  destruct (forallb (fun d : bool => d) (nth_set k true done)); [cbn; lia|apply IH].
+Qed.
+End ForkJoin.
